@@ -49,7 +49,9 @@ func CkptHeader(name string) string {
 	for _, c := range []byte(name) {
 		n += int(c)
 	}
-	switch n % 4 {
+	switch n % 5 {
+	case 4: // re-tagged: WriteCheckpoint over the bytes of an existing checkpoint leaves two directives
+		return "-- atlas:checkpoint v2\n-- atlas:checkpoint v1\n\n"
 	case 1:
 		return "-- written by hand\n-- atlas:checkpoint\n\n"
 	case 2:
